@@ -168,8 +168,13 @@ Inductive case :=
 (* byteslicepool cycle: stale bytes put back (slice of that length), then Get + append data:
    observed length right after Get and bytes visible after the append *)
 | CPool (stale : list N) (data : list N) (got_len : Z) (seen : list N)
-(* logger look-ups: (name, identity class of the Logger returned) *)
-| CReg (obs : list (Z * Z)).
+(* logger look-ups: (name, identity class of the Logger returned; classes numbered in order of
+   first appearance) *)
+| CReg (obs : list (Z * Z))
+(* look-ups of the same fresh names by several goroutines behind a barrier, then the same
+   names again sequentially: the distinct (name, logger) pairs seen, and for every distinct
+   logger whether options applied through the registry reached it *)
+| CRegApply (obs : list (Z * Z)) (reached : list bool).
 
 Definition pool_model (stale data : list N) : Z * list N :=
   let ev := [BGet 0 (length stale) None; BAppend 0 stale; BPut 0; BGet 1 0 (Some 0)] in
@@ -189,7 +194,14 @@ Definition oracle (c : case) : bool :=
   | CObs obs => all_same_b obs
   | CPool stale data got_len seen => (got_len =? 0)%Z && eqb_listN seen data
   | CReg obs => same_name_same_logger obs
+  | CRegApply obs reached => same_name_same_logger obs && forallb (fun b : bool => b) reached
   end.
+
+(* the registry model (sequential get-or-create, justified for every interleaving by
+   C08_registry_linearizable) on the observed sequence of names: logger k is the k-th created *)
+Definition reg_model (ns : list Z) : list Z :=
+  let '(_, _, res) := seq_registry (fun t => nth t ns 0%Z) (seq 0 (length ns)) [] 0 [] in
+  map (fun p : nat * logger => Z.of_nat (snd p)) res.
 
 Definition model_agrees (v : variant) (c : case) : bool :=
   match c with
@@ -197,7 +209,8 @@ Definition model_agrees (v : variant) (c : case) : bool :=
   | CObs _ => true
   | CPool stale data got_len seen =>
       let '(l, vis) := pool_model stale data in (l =? got_len)%Z && eqb_listN vis seen
-  | CReg _ => true
+  | CReg obs => eqb_listZ (reg_model (map fst obs)) (map snd obs)
+  | CRegApply obs _ => eqb_listZ (reg_model (map fst obs)) (map snd obs)
   end.
 
 (* 0 = agree and oracle holds; 1 = model and implementation differ; 2 = the implementation's
@@ -215,4 +228,7 @@ Definition witness_nests : list nest := [mkN true KUnwrap 0 [1%Z]].
 Example witness_original : predict Original witness_ps witness_nests = [ErrSig; Same].
 Proof. vm_compute. reflexivity. Qed.
 Example witness_fixed : predict Fixed witness_ps witness_nests = [Same; Same].
+Proof. vm_compute. reflexivity. Qed.
+
+Example reg_model_ex : reg_model [5; 7; 5; 9; 7]%Z = [0; 1; 0; 2; 1]%Z.
 Proof. vm_compute. reflexivity. Qed.
